@@ -25,6 +25,15 @@ class DB:
     def ty(self, crate, tid): return self.tys.get((crate, tid))
     def find(self, name, pred=None):
         c = self.fns.get(name, [])
+        if not c and '::' in name:
+            # probe-only fallback for re-exported paths: unique match on the last two path segments
+            tail = '::'.join(re.sub(r'::<.*?>', '', name).split('::')[-2:])
+            if not hasattr(self, '_tails'):
+                self._tails = {}
+                for n, l in self.fns.items():
+                    self._tails.setdefault('::'.join(re.sub(r'::<.*?>', '', n).split('::')[-2:]), []).append(n)
+            m = self._tails.get(tail, [])
+            if len(m) == 1: c = self.fns[m[0]]
         if pred: c = [f for f in c if pred(f)]
         return c[0] if len(c) >= 1 else None
 
@@ -182,6 +191,7 @@ class Exec:
                     v = int.from_bytes(bytes(b for b in by), 'little'); return BV(z3.BitVecVal(v, info['bits']), info['signed'])
                 if info.get('k') == 'bool': return z3.BoolVal(by[0] != 0)
                 return Opaque(('const', t['display'] if t else '?', tuple(by)))
+            if isinstance(k, dict) and 'Unevaluated' in k: return Ref(Cell(Opaque(('promoted', k['Unevaluated'].get('promoted')))))
             raise Unmodelled(f'const {k}')
         def operand(o):
             if 'Copy' in o: return place(o['Copy']).get()
@@ -447,7 +457,28 @@ def m_bitvec_index(ex, n, a):
     bits = a[0].get().bits; k = index_items(ex, bits, a[1], True)
     return Ref(Cell(bits[k]))
 
+
+def lex_cmp(x, y):
+    """returns (lt, eq) z3 Bools for derived lexicographic PartialOrd over modelled values."""
+    if isinstance(x, Ref): x = x.get()
+    if isinstance(y, Ref): y = y.get()
+    if isinstance(x, BV): return (z3.ULT(x.e, y.e) if not x.signed else x.e < y.e, x.e == y.e)
+    if isinstance(x, Opaque):
+        if x.tag == y.tag: return (z3.BoolVal(False), z3.BoolVal(True))
+        raise Unmodelled('ordering of distinct opaque values')
+    if isinstance(x, Agg):
+        if x.variant != y.variant: return (z3.BoolVal(x.variant < y.variant), z3.BoolVal(False))
+        lt = z3.BoolVal(False); eq = z3.BoolVal(True)
+        for p, q in zip(x.fields, y.fields):
+            l, e = lex_cmp(p, q); lt = z3.Or(lt, z3.And(eq, l)); eq = z3.And(eq, e)
+        return (lt, eq)
+    raise Unmodelled(f'ordering of {x!r}')
+def m_ge(ex, n, a):
+    lt, eq = lex_cmp(a[0], a[1]); return z3.Not(lt)
+
 STD_MODELS = {'__re__': [
+    (r'core::panicking::panic(_fmt)?|core::panicking::assert_failed.*', lambda ex, n, a: (_ for _ in ()).throw(Panic(f'{n}({a[0]!r})'))),
+    (r'<.* as std::cmp::PartialOrd>::ge', m_ge),
     (r'std::vec::Vec::<.*>::len', m_vec_len),
     (r'<std::vec::Vec<.*> as std::ops::Index<usize>>::index', m_vec_index),
     (r'<std::vec::Vec<.*> as std::ops::Deref>::deref', m_identity),
@@ -652,12 +683,88 @@ def exp_limiter(db):
     for k, v in kinds.items(): print('   outcome', k, v)
     for x in bad[:3]: print('  ', x)
 
+
+# ------------------------------------------------------------------ experiment: replica handler start_timeout (C03c persist-before-send)
+def exp_timeout(db):
+    t0 = time.time()
+    ST = 'zksync_consensus_bft::v2_chonky_bft::timeout::<impl zksync_consensus_bft::v2_chonky_bft::StateMachine>::start_timeout'
+    def body(ex):
+        log = []
+        view = BV(z3.BitVec('view', 64)); phase = Agg('adt', 'Phase', [0, 1, 2][0], [])
+        ph = None
+        for i in (0, 1):
+            if ex.branch(z3.Bool(f'phase_is_{i}')): ph = i; break
+        if ph is None: ph = 2
+        phase = Agg('adt', 'Phase', ph, [])
+        has_cqc = ex.branch(z3.Bool('has_commit_qc')); has_tqc = ex.branch(z3.Bool('has_timeout_qc'))
+        cqc_view = BV(z3.BitVec('cqc_view', 64)); tqc_view = BV(z3.BitVec('tqc_view', 64))
+        if not (has_cqc or has_tqc): ex.assume(view.e == 0)      # reachable-state invariant: a view > 0 is justified by some certificate
+        mkview = lambda v: Agg('adt', 'View', 0, [Opaque('genesis'), Agg('adt', 'EpochNumber', 0, [bvv(0)]), Agg('adt', 'ViewNumber', 0, [v])])
+        cqc = some(Agg('adt', 'CommitQC', 0, [Agg('adt', 'ReplicaCommit', 0, [mkview(cqc_view), Opaque('hdr')]), Opaque('signers'), Opaque('sig')])) if has_cqc else none()
+        tqc = some(Agg('adt', 'TimeoutQC', 0, [mkview(tqc_view), Opaque('map'), Opaque('sig')])) if has_tqc else none()
+        hv = some(Opaque('high_vote')) if ex.branch(z3.Bool('has_high_vote')) else none()
+        cfg = Agg('adt', 'Config', 0, [Opaque('engine_manager'), Opaque('secret_key'), bvv(1000), Opaque('view_timeout'), Agg('adt', 'EpochNumber', 0, [bvv(0)]), Opaque('first_block'), Opaque('validators')])
+        sm = Agg('adt', 'StateMachine', 0, [Ref(Cell(cfg)), Opaque('outbound'), Opaque('inbound'), Opaque('proposer_sender'),
+                 Agg('adt', 'ViewNumber', 0, [view]), phase, hv, cqc, tqc] + [Opaque(f'cache{i}') for i in range(5)] + [Opaque('view_timeout0'), Opaque('view_start')])
+        smc = Cell(sm)
+        snapshot = lambda: (smc.v.fields[4].fields[0].e, smc.v.fields[5].variant, smc.v.fields[6], smc.v.fields[7], smc.v.fields[8])
+        def m_poll(e, n, a):
+            fut = a[0].fields[0].get() if isinstance(a[0], Agg) else a[0].get()
+            if isinstance(fut, EnvFuture) and fut.kind == 'backup_state':
+                if e.branch(z3.Bool('backup_fails')): log.append(('persist_failed',)); return ready(err(Opaque('ctx::Error')))
+                log.append(('persist', snapshot())); return ready(ok(UNIT))
+            raise Unmodelled(f'poll {fut!r}')
+        models = dict(STD_MODELS); R = list(STD_MODELS['__re__']); models['__re__'] = R
+        R += [
+            (r'<tracing::Level as std::cmp::PartialOrd<tracing::level_filters::LevelFilter>>::le', lambda e, n, a: False),   # logging disabled
+            (r'.*StateMachine>::backup_state', lambda e, n, a: EnvFuture('backup_state', a)),
+            (r'.*StateMachine>::backup_state::\{closure#0\}', m_poll),
+            (r'.*IntoFuture>::into_future|std::future::IntoFuture::into_future', m_identity),
+            (r'std::pin::Pin::<.*>::new_unchecked', lambda e, n, a: Agg('adt', 'Pin', 0, [a[0]])),
+            (r'<std::result::Result<.*> as zksync_concurrency::error::Wrap>::wrap::<.*>', m_identity),
+            (r'<std::result::Result<.*> as std::ops::Try>::branch', lambda e, n, a: Agg('adt', 'ControlFlow', 0, [a[0].fields[0]]) if a[0].variant == 0 else Agg('adt', 'ControlFlow', 1, [err(a[0].fields[0])])),
+            (r'<std::result::Result<.*> as std::ops::FromResidual<.*>>::from_residual', lambda e, n, a: err(a[0].fields[0])),
+            (r'<std::sync::Arc<.*> as std::ops::Deref>::deref', lambda e, n, a: a[0].get()),
+            (r'zksync_concurrency::ctx::Ctx::now', lambda e, n, a: Opaque('now')),
+            (r'<time::instant::Instant as std::ops::Add<time::duration::Duration>>::add', lambda e, n, a: Opaque('now+timeout')),
+            (r'<zksync_consensus_roles::validator::ViewNumber as std::cmp::PartialEq>::ne', lambda e, n, a: a[0].get().fields[0].e != (a[1].get().fields[0].e if isinstance(a[1].get(), Agg) else z3.BitVecVal(0, 64))),   # promoted &ViewNumber(0)
+            (r'zksync_consensus_bft::config::Config::genesis_hash', lambda e, n, a: Opaque('genesis')),
+            (r'zksync_consensus_roles::validator::SecretKey::sign_msg::<.*>', lambda e, n, a: Agg('adt', 'Signed', 0, [a[1], Opaque('mykey'), Opaque('sig')])),
+            (r'zksync_concurrency::ctx::channel::UnboundedSender::<.*>::send', lambda e, n, a: (log.append(('send', a[1], snapshot())), UNIT)[1]),
+            (r'<std::option::Option<.*> as std::cmp::PartialOrd>::ge', None),
+        ]
+        R[:] = [x for x in R if x[1] is not None]
+        ex.models = models
+        co = ex.call_named(ST, [Ref(smc), Ref(Cell(Opaque('ctx')))])
+        r = ex.call_named(ST + '::{closure#0}', [Agg('adt', 'Pin', 0, [Ref(Cell(co))]), Opaque('cx')])
+        if r.variant != 0: raise Unmodelled('Pending')
+        return (r.fields[0].variant, log, snapshot())
+    ex, results = explore(db, dict(STD_MODELS), body)
+    bad = []; outcomes = {}
+    for (kind, val), pc in results:
+        if kind == 'panic': outcomes[('panic', val[:60])] = outcomes.get(('panic', val[:60]), 0) + 1; continue
+        res, log, final = val
+        sends = [x for x in log if x[0] == 'send']; persists = [x for x in log if x[0] == 'persist']
+        outcomes[(res, tuple(x[0] for x in log))] = outcomes.get((res, tuple(x[0] for x in log)), 0) + 1
+        # persist-before-send: every send is preceded by a successful persist of the very state it was derived from
+        for i, ev in enumerate(log):
+            if ev[0] != 'send': continue
+            prior = [p for p in log[:i] if p[0] == 'persist']
+            if not prior: bad.append(('send without prior persist', log)); continue
+            pv, pp = prior[-1][1][0], prior[-1][1][1]; sv, sp = ev[2][0], ev[2][1]
+            s = z3.Solver(); s.add(*pc); s.add(z3.Not(z3.And(pv == sv, z3.BoolVal(pp == sp), z3.BoolVal(sp == 2))))
+            if s.check() != z3.unsat: bad.append(('send not covered by persisted state', log))
+    print(f'C03(c) start_timeout: paths={ex.stats["paths"]} queries={ex.stats["queries"]} time={time.time() - t0:.1f}s violations={len(bad)}')
+    for k, v in outcomes.items(): print('   outcome', k, v)
+    for x in bad[:3]: print('  ', str(x)[:300])
+
 def main():
     prefix = sys.argv[1]; exp = sys.argv[2] if len(sys.argv) > 2 else 'implied'
     t0 = time.time(); db = DB(prefix); index_closures(db)
     print(f'loaded {sum(len(v) for v in db.fns.values())} bodies, {len(db.tys)} types in {time.time() - t0:.1f}s')
     if exp == 'implied': exp_implied_block(db, int(sys.argv[3]) if len(sys.argv) > 3 else 3)
     if exp == 'limiter': exp_limiter(db)
+    if exp == 'timeout': exp_timeout(db)
 
 if __name__ == '__main__':
     main()
